@@ -186,24 +186,18 @@ func (a *UDPAssociation) ReadLoop() {
 			continue
 		}
 
-		// Update actual client address on first datagram
+		// Only the client that owns this association may use the relay
+		// (RFC 1928: datagrams from any other source address are dropped).
+		if !a.isFromClient(clientAddr) {
+			continue
+		}
+
+		// Record the client's address on its first datagram; replies go there
 		a.mu.Lock()
 		if a.ActualClientAddr == nil {
 			a.ActualClientAddr = clientAddr
 		}
 		a.mu.Unlock()
-
-		// Verify client address if expected address was specified
-		a.mu.RLock()
-		expected := a.ExpectedClientAddr
-		a.mu.RUnlock()
-
-		if expected != nil && expected.IP != nil && !expected.IP.IsUnspecified() {
-			if !clientAddr.IP.Equal(expected.IP) {
-				// Ignore datagrams from unexpected addresses
-				continue
-			}
-		}
 
 		// Parse SOCKS5 UDP header
 		header, payload, err := ParseUDPHeader(buf[:n])
@@ -224,6 +218,37 @@ func (a *UDPAssociation) ReadLoop() {
 			handler.RelayUDPDatagram(streamID, destAddr, header.Port, header.AddrType, header.RawAddr, payload)
 		}
 	}
+}
+
+// isFromClient reports whether a datagram received on the relay socket comes from
+// the client that owns this association: the host that opened the TCP control
+// connection and, if the UDP ASSOCIATE request named an address, that address.
+func (a *UDPAssociation) isFromClient(src *net.UDPAddr) bool {
+	if src == nil {
+		return false
+	}
+
+	// The relay socket is IPv4-only, so the comparison is possible whenever the
+	// control connection's peer address is known and is an IPv4 address.
+	if a.TCPConn != nil {
+		if peer, ok := a.TCPConn.RemoteAddr().(*net.TCPAddr); ok && peer != nil && peer.IP.To4() != nil {
+			if !peer.IP.Equal(src.IP) {
+				return false
+			}
+		}
+	}
+
+	a.mu.RLock()
+	expected := a.ExpectedClientAddr
+	a.mu.RUnlock()
+
+	if expected != nil && expected.IP != nil && !expected.IP.IsUnspecified() {
+		if !src.IP.Equal(expected.IP) {
+			return false
+		}
+	}
+
+	return true
 }
 
 // WriteToClient sends a datagram back to the SOCKS5 client.
